@@ -98,6 +98,32 @@ pub fn p_c03_pullback(depth: u8, x: f64, y: f64) {
     }
     a += 1;
   }
+  // the image point may sit on a facet seam or diagonal: snap the longitude to the nearest multiples of pi/4 (the solver's
+  // image point is then only reachable from the exact meridian), and the latitude to the special values
+  let k = (lon / (0.25 * REF_PI)).round();
+  let t = 0.72972765622696636344_f64;
+  let lats = [lat, 0.0, t, -t, 0.5 * REF_PI, -0.5 * REF_PI];
+  let mut dk = -1.0;
+  while dk <= 1.0 {
+    let l0 = (k + dk) * 0.25 * REF_PI;
+    let lons = [l0, -l0, l0 - 2.0 * REF_PI];
+    for lo0 in lons.iter() {
+      for la0 in lats.iter() {
+        let mut a = -2i64;
+        while a <= 2 {
+          let mut b = -4i64;
+          while b <= 4 {
+            let lo = f64::from_bits((lo0.to_bits() as i64).wrapping_add(a) as u64);
+            let la = f64::from_bits((la0.to_bits() as i64).wrapping_add(b) as u64);
+            if lo.is_finite() && la.is_finite() && la.abs() <= 0.5 * REF_PI { p_c03_point(depth, lo, la); }
+            b += 1;
+          }
+          a += 1;
+        }
+      }
+    }
+    dk += 1.0;
+  }
 }
 
 pub fn p_c03_guard(depth: u8, which: u8, h: u64) {
